@@ -4,11 +4,21 @@
 // compiled only under the build tag "verif").
 package latency
 
+// Every function under contract in this package also serves the properties that depend on the whole package.
+//@ package-props C15
+
 // The running batch (start, totalDiff, count, min, max) is only touched under
 // Latency.mu. The windows (and their slots) are reached only through the tracker, by
 // functions that run with that lock held: update and its deferred export.
 //@ monitor Latency.mu protects start, totalDiff, count, min, max
 //@ pred WinOK(w *window) := w != nil && allocated(w.slots) && (forall j int :: 0 <= j && j < len(w.slots) ==> w.slots[j] != nil)
+// A window as newWindow builds it: well formed, with its export functions registered.
+//@ pred WinFull(w *window) := WinOK(w) && allocated(w) && w.stats != nil && (forall k string :: has(w.stats, k) ==> w.stats[k] != nil)
+// The tracker's object invariant: every window is well formed, and no two windows are the same object or share a slot
+// array. It is established by New (the only constructor; all fields are unexported) and preserved by every method that
+// reaches the windows (update and its deferred export, both under Latency.mu) - so it holds whenever the lock is free.
+//@ pred LatOK(l *Latency) := allocated(l.windows) && (forall i int :: 0 <= i && i < len(l.windows) ==> WinFull(l.windows[i]))
+//@   && (forall a int, b int :: 0 <= a && a < b && b < len(l.windows) ==> l.windows[a] != l.windows[b] && (arr(l.windows[a].slots) == 0 || arr(l.windows[a].slots) != arr(l.windows[b].slots)))
 
 // The clock, the latency function and the metadata sink are assumed not to touch the tracker.
 //@ func global Now
@@ -40,6 +50,7 @@ package latency
 //@ func (*window).add
 //@   props C15 C12
 //@   arith wrap
+//@   inline
 //@   requires w != nil
 //@   modifies w.total, w.count, w.slots, heap([]*slot)
 //@   ensures [empty-slot-ignored C15] ls == nil || ls.count == 0 ==> w.count == old(w.count) && w.total == old(w.total) && len(w.slots) == old(len(w.slots))
@@ -79,14 +90,18 @@ package latency
 //@   invariant 0: 0 <= $i && 0 <= start && start <= $i && $i <= len(w.slots) && w.slots == old(w.slots) && WinOK(w)
 //@     && (old(EndsOrdered(w)) ==> (forall j int :: 0 <= j && j < start ==> Expired(w.slots[j], ts, w.size)) && (forall j int :: start <= j && j < $i ==> !Expired(w.slots[j], ts, w.size)))
 //@     && (old(EndsOrdered(w)) && start < $i ==> !Expired(w.slots[start], ts, w.size))
-//@   ensures WinOK(w) && len(w.slots) <= old(len(w.slots))
+//@   ensures WinOK(w) && len(w.slots) <= old(len(w.slots)) && arr(w.slots) == old(arr(w.slots))
 //@   ensures [kept-slots-are-the-newest-in-order C15] forall j int :: 0 <= j && j < len(w.slots) ==> w.slots[j] == old(w.slots)[j + old(len(w.slots)) - len(w.slots)]
 //@   ensures [no-expired-slot-kept C15] old(EndsOrdered(w)) ==> (forall j int :: 0 <= j && j < len(w.slots) ==> !Expired(w.slots[j], ts, w.size))
 //@   ensures [only-expired-slots-evicted C15] old(EndsOrdered(w)) ==> (forall j int :: 0 <= j && j < old(len(w.slots)) - len(w.slots) ==> Expired(old(w.slots)[j], ts, w.size))
+// A window is covered once its oldest slot started at least one window size before the refresh (time.Time.Sub saturates).
+//@ pred SatDiff(t int, u int) := ite(t - u > 9223372036854775807, 9223372036854775807, ite(t - u < 0 - 9223372036854775808, 0 - 9223372036854775808, t - u))
 //@ func (*window).isCovered
 //@   props C15 C12
 //@   requires WinOK(w)
 //@   modifies w.covered
+//@   ensures [covered-once-the-oldest-slot-is-a-window-old C15] res0 <==> old(w.covered) || (len(w.slots) > 0 && SatDiff(tinst(ts), tinst(w.slots[0].start)) >= w.size)
+//@   ensures [coverage-is-remembered C15] w.covered == res0
 // The export functions registered per statistic (method values of this window: setAvg, setMax, setMin).
 //@ func local f in (*window).updateMeta (name, m)
 //@   note the registered export functions are this window's setAvg / setMax / setMin (newWindow); they only read the window and call the metadata sink
@@ -95,21 +110,69 @@ package latency
 //@   arith wrap
 //@   requires WinOK(w) && m != nil && w.stats != nil && (forall k string :: has(w.stats, k) ==> w.stats[k] != nil)
 //@   modifies w.covered, w.count, w.total, w.slots
-//@   invariant 0: WinOK(w)
+//@   invariant 0: WinOK(w) && arr(w.slots) == old(arr(w.slots))
+//@   ensures [window-stays-well-formed C15] WinOK(w) && arr(w.slots) == old(arr(w.slots))
+//@   ensures [slides-only-a-covered-window C15] !ignoreInitialWindowCoverage && !old(w.covered) && (old(len(w.slots)) == 0 || SatDiff(tinst(ts), old(tinst(w.slots[0].start))) < w.size) ==> view(w.slots) == old(view(w.slots)) && w.count == old(w.count) && w.total == old(w.total)
 
 // update folds the running batch into every window and exports the statistics - all of
 // it, including the deferred export closure, while holding the lock (the closure's
 // precondition is an obligation where the deferred call runs).
 //@ func (*Latency).update$1
 //@   props C15 C12
-//@   trusted
 //@   requires [export-runs-under-the-lock C15] l != nil && wheld(l.mu)
-//@   modifies *
-//@   note body not verified: that every window is well formed (WinOK) when the export runs would need an invariant over all windows and their slot arrays (no sharing), which is not stated; the window functions themselves are verified under WinOK
+//@   requires [running-batch-already-folded C15] l.count == 0
+//@   requires LatOK(l) && m != nil
+//@   modifies l.start, heap(window.covered), heap(window.count), heap(window.total), heap(window.slots)
+//@   invariant 0: 0 <= $i && $i <= len(l.windows) && LatOK(l) && wheld(l.mu)
+//@   ensures [windows-stay-well-formed C15] LatOK(l)
+//@   ensures [next-batch-starts-at-this-refresh C15] tinst(l.start) == tinst(ts)
 //@ func (*Latency).update
 //@   props C15 C12
 //@   arith wrap
 //@   locks l
-//@   requires l != nil && Now != nil && allocated(l.windows) && (forall i int :: 0 <= i && i < len(l.windows) ==> l.windows[i] != nil)
+//@   requires l != nil && Now != nil && m != nil && LatOK(l)
 //@   modifies *
-//@   invariant 0: 0 <= $i && $i <= len(l.windows) && wheld(l.mu) && allocated(l.windows) && (forall i int :: 0 <= i && i < len(l.windows) ==> l.windows[i] != nil) && s != nil
+//@   invariant 0: 0 <= $i && $i <= len(l.windows) && wheld(l.mu) && LatOK(l) && s != nil && fresh(s) && l.windows == old(l.windows)
+//@     && s.count == old(l.count) && s.count != 0 && s.total == old(l.totalDiff) && s.max == old(l.max) && s.min == old(l.min) && tinst(s.start) == old(tinst(l.start)) && tinst(s.end) == tinst(ts)
+//@     && l.count == old(l.count) && l.totalDiff == old(l.totalDiff) && l.min == old(l.min) && l.max == old(l.max)
+//@     && (forall k int :: 0 <= k && k < $i ==> len(l.windows[k].slots) == old(len(l.windows[k].slots)) + 1 && l.windows[k].slots[len(l.windows[k].slots) - 1] == s)
+//@     && (forall k int :: $i <= k && k < len(l.windows) ==> l.windows[k].slots == old(l.windows[k].slots))
+//@   assert at call (*Latency).update$1#0: [batch-folded-into-every-window-before-the-export C15] old(l.count) != 0 ==>
+//@     (forall k int :: 0 <= k && k < len(l.windows) ==> len(l.windows[k].slots) == old(len(l.windows[k].slots)) + 1 && l.windows[k].slots[len(l.windows[k].slots) - 1] == s)
+//@     && s.count == old(l.count) && s.total == old(l.totalDiff) && s.max == old(l.max) && s.min == old(l.min) && tinst(s.start) == old(tinst(l.start)) && tinst(s.end) == tinst(ts)
+//@   assert at call (*Latency).update$1#0: [nothing-folded-from-an-empty-batch C15] old(l.count) == 0 ==> (forall k int :: 0 <= k && k < len(l.windows) ==> l.windows[k].slots == old(l.windows[k].slots))
+//@   ensures [windows-stay-well-formed C15] LatOK(l)
+//@   ensures [running-batch-reset C15] l.count == 0 && (old(l.count) != 0 ==> l.totalDiff == 0 && l.min == 0 && l.max == 0)
+
+// The two public refreshes differ only in whether a window must be covered before it exports.
+//@ func (*Latency).UpdateReset
+//@   props C15 C12
+//@   locks l
+//@   requires l != nil && Now != nil && m != nil && LatOK(l)
+//@   modifies *
+//@   assert at call (*Latency).update#0: [refresh-requires-covered-windows C15] arg0 == l && arg1 == m && !arg2
+//@   ensures [windows-stay-well-formed C15] LatOK(l)
+//@ func (*Latency).UpdateLast
+//@   props C15 C12
+//@   locks l
+//@   requires l != nil && Now != nil && m != nil && LatOK(l)
+//@   modifies *
+//@   assert at call (*Latency).update#0: [final-refresh-exports-uncovered-windows-too C15] arg0 == l && arg1 == m && arg2
+//@   ensures [windows-stay-well-formed C15] LatOK(l)
+
+// Construction: one window per requested size, each its own object with no slots yet; the
+// scale factor is never zero and a latency function is always installed.
+//@ func newWindow
+//@   props C15 C12
+//@   invariant 0: w != nil && fresh(w) && w.stats != nil && fresh(w.stats) && (forall k string :: has(w.stats, k) ==> w.stats[k] != nil)
+//@     && len(w.slots) == 0 && arr(w.slots) == 0 && w.size == size && w.sf == sf && w.count == 0 && w.total == 0 && !w.covered
+//@   ensures [fresh-empty-window C15] res0 != nil && fresh(res0) && WinFull(res0) && len(res0.slots) == 0 && arr(res0.slots) == 0 && res0.size == size && res0.sf == sf && res0.count == 0 && res0.total == 0 && !res0.covered
+//@ func New
+//@   props C15 C12
+//@   arith wrap
+//@   requires allocated(windowSizes) && (opts != nil ==> allocated(opts))
+//@   invariant 0: 0 <= $i && $i <= len(windowSizes) && len(windows) == $i && (arr(windows) == 0 || fresh(windows))
+//@     && (forall i int :: 0 <= i && i < len(windows) ==> WinFull(windows[i]) && fresh(windows[i]) && arr(windows[i].slots) == 0 && windows[i].size == windowSizes[i])
+//@     && (forall a int, b int :: 0 <= a && a < b && b < len(windows) ==> windows[a] != windows[b])
+//@   ensures [tracker-well-formed C15] res0 != nil && fresh(res0) && LatOK(res0) && res0.scaleFactor != 0 && res0.compute != nil && res0.count == 0
+//@   ensures [one-window-per-size-in-order C15] len(res0.windows) == len(windowSizes) && (forall i int :: 0 <= i && i < len(windowSizes) ==> res0.windows[i].size == windowSizes[i])
